@@ -1538,6 +1538,11 @@ func (b *Bitmap) ImportRoaringBits(data []byte, clear bool, log bool, rowSize ui
 				changes := int(existN - newC.N())
 				changed += changes
 				rowSet[currRow] -= changes
+				if newC.N() == 0 {
+					// An emptied container is dropped, as Remove does:
+					// container walks take a container for data.
+					newC = nil
+				}
 				return newC, true
 			}
 			return oldC, false
